@@ -15,7 +15,6 @@ NOT_APPLICABLE = {
     "C23": "formatter round trip on program text: " + PURE,
     "C24": "rejection of invalid programs: " + PURE,
     # not yet built (kept honest: listed until a check exists)
-    "C11": "check not built yet in this session (planned, DESIGN.md section 3)",
 }
 
 NOTES = ("All checks share one pipeline (./check <id>): rsync /repo's working tree to a scratch dir, instrument with simgo, "
@@ -116,5 +115,11 @@ CHECK_META = {
         design_ref="DESIGN.md section 3, C05",
         text="exploration: seeded programs from state-stressing rules x histories with clock jumps, repeated timestamp strings, runtime errors and stop; differential on the last line",
         note="sampling; no schedule dimension; the oracle needs no model of the language",
+    ),
+    "C11": dict(
+        technique="deterministic simulation under the Go race detector: real VMs, GC loop, reloads and every export path interleaved by the seeded scheduler (statement-level preemption), scheduler hand-offs hidden from the detector; conservation and monotonicity oracles",
+        design_ref="DESIGN.md section 2.4 and section 3, C11",
+        text="exploration: seeded interleavings of line processing, GC under the fake clock, reloads and six export paths; happens-before race detection on every explored run plus lost-update and export-range checks",
+        note="sampling; the race verdict relies on runtime.RaceDisable semantics of go1.26.8 (validated by seeded races: removing a lock is reported, correctly locked code is not)",
     ),
 }
